@@ -243,7 +243,15 @@ func c04Oracle1(in c04In) probe.Outcome {
 	if in.Origin != "" {
 		labels = append(labels, "origin:"+in.Origin)
 	}
-	v0, e0 := decodeEntry(in, probe.Exact(in.B))
+	x0 := probe.Exact(in.B)
+	a0 := probe.AllocBytes()
+	v0, e0 := decodeEntry(in, x0)
+	// allocation guard, the second stand-in for "work bounded by the input length": a decoder that sizes a buffer from a
+	// declared (32-bit or multiplied) length before validating it allocates far more than the input warrants. Measured worst
+	// case on the unchanged tree, including this harness's own read-back and the accounting lag of the runtime: < 2 MiB.
+	if d := probe.AllocBytes() - a0; d > 16<<20+1024*uint64(len(in.B)) {
+		return probe.Fail("%s: %d octets allocated while decoding %d input octets", in.Entry, d, len(in.B))
+	}
 	if probe.IsPanic(e0) {
 		return probe.Fail("%s panics on %d octets (len == cap): %v", in.Entry, len(in.B), e0)
 	}
